@@ -12,7 +12,7 @@
    hexnum_to_fraction, _sci_to_fraction, digits_to_fraction),
    fpy2/ast/fpyast.py (as_rational / as_real of the five literal classes) and
    fpy2/frontend/parser.py (_parse_constant, the unary minus / plus fold). *)
-From Coq Require Import ZArith List Bool Ascii String QArith.
+From Coq Require Import ZArith List Bool Ascii String QArith Qabs.
 Import ListNotations.
 Open Scope Z_scope.
 
@@ -157,7 +157,7 @@ Definition hex_denote (s : string) : option lval :=
 Definition normalize_pyfloat (s : string) : list ascii :=
   filter (fun c => negb (is_char "_" c)) (map lower (chars s)).
 Definition pyfloat_denote (s : string) : option lval :=
-  signed (sci_denote 10 10 (is_char "e") [] false false (normalize_pyfloat s)).
+  signed (sci_denote 10 10 (is_char "e") [] false false (strip (normalize_pyfloat s))).
 
 (* a Python integer literal: decimal, 0x / 0o / 0b prefixed, with underscores *)
 Definition pyint_denote (s : string) : option Z :=
@@ -433,3 +433,10 @@ Fixpoint lit_denote (l : lit) : option lval :=
   | LNeg a => option_map lneg (lit_denote a)
   | LPos a => lit_denote a
   end.
+
+(* v (an integer >= 2^53) is a binary64 number within half a unit in the last
+   place of q: a correctly rounded double of q (used to state the witness of
+   the parser defect: the double is what Python hands to the front end) *)
+Definition binary64_nearest_int (v : Z) (q : Q) : bool :=
+  let e := Z.log2 v - 52 in
+  (2 ^ 53 <=? v) && (v mod 2 ^ e =? 0) && Qle_bool (Qabs (q - inject_Z v)) (inject_Z (2 ^ (e - 1))).
